@@ -170,7 +170,8 @@ func (m *xdsResourceManager) VerifWatch(rt xdsresource.ResourceType, name string
 // 1 after the first cache miss, 2 before the select, 3 after the notifier arm fired,
 // 4 after the deadline arm fired;
 // and in the response handlers (receiver goroutine, ctx = context.Background(), name = ""):
-// 5 after updateAndACK, before the interest filter; 6 after the filter, before UpdateResource.
+// 5 after updateAndACK, before the interest filter; 6 after the filter, before UpdateResource;
+// and in sendRequest (any producer goroutine): 7 before the request is handed to the channel.
 var verifYieldFn atomic.Value // func(ctx context.Context, point int, rt xdsresource.ResourceType, name string)
 
 // SetVerifYield installs the function called at Get's yield points; ctx is the context of that
@@ -247,6 +248,10 @@ func verifProduced(ch chan *discoveryv3.DiscoveryRequest, kind int) {
 		st.drained++
 	}
 	verifSenderMu.Unlock()
+	if kind == 0 {
+		// yield point 7: a producer (Watch, updateAndACK) is about to hand its request to the channel
+		verifYield(context.Background(), 7, 0, "")
+	}
 }
 
 // VerifSenderIdle reports whether the sender goroutine is parked in its select and everything
